@@ -73,6 +73,8 @@ type SimNode struct {
 	Desc *node.Node
 	// InGenesis is true if the node is part of the genesis document.
 	InGenesis bool
+	// Runtimes are the runtime versions the node registers for (runtime support; nil without the compute role).
+	Runtimes []*node.Runtime
 }
 
 // SimEntity is an entity known to the harness.
@@ -106,6 +108,7 @@ type Params struct {
 	NodeThreshold   uint64
 	CheckpointEvery uint64
 	WithRuntime     bool
+	RT              RuntimeParams // runtime support: zero unless WithRuntime
 }
 
 // Scenario is a genesis document plus all keys.
@@ -118,6 +121,8 @@ type Scenario struct {
 	// All accounts that may sign staking-like transactions (entities + users).
 	Signers []*Account
 	Runtime *registry.Runtime
+	// RuntimeAddr is the staking account of the runtime (runtime support).
+	RuntimeAddr staking.Address
 }
 
 func q(v uint64) quantity.Quantity { return *quantity.NewFromUint64(v) }
@@ -173,6 +178,10 @@ func NewScenario(seed uint64, profile string) *Scenario {
 		p.EpochInterval = 2 + rng.Int64N(2)
 	case "registry":
 		p.ExtraEntities = 3 + rng.IntN(3)
+	case "runtime": // runtime support: longer epochs so that round timeouts fit into an epoch
+		p.NumValidators = 4 + rng.IntN(4)
+		p.MaxValidators = 2 + rng.IntN(p.NumValidators)
+		p.EpochInterval = 6 + rng.Int64N(6)
 	}
 	s := &Scenario{Seed: seed, P: p}
 
@@ -207,6 +216,7 @@ func NewScenario(seed uint64, profile string) *Scenario {
 		s.Signers = append(s.Signers, u)
 	}
 	s.Doc = s.buildDoc(rng)
+	s.addRuntime(rng, profile) // runtime support (drawn after all other scenario draws)
 	return s
 }
 
@@ -229,6 +239,7 @@ func NodeDescriptor(n *SimNode, expiration beacon.EpochTime) *node.Node {
 		EntityID:   n.Entity.PK,
 		Expiration: expiration,
 		Roles:      n.Roles,
+		Runtimes:   n.Runtimes, // runtime support (nil without the compute role)
 		TLS:        node.TLSInfo{PubKey: n.Keys.TLS.PK},
 		P2P:        node.P2PInfo{ID: n.Keys.P2P.PK, Addresses: []node.Address{addr}},
 		Consensus: node.ConsensusInfo{
